@@ -1,5 +1,5 @@
 """C02 - backorders / inventory level / service measures consistent."""
-import simlib, simstream
+import simlib, simstream, mplib
 TRUSTED = ["exact regime (integer / half-integer data): Python floats compared for equality with model rationals; fill rate "
 		   "compared as the correctly rounded quotient", "single-product networks only at network level"]
 FIELDS = ['il', 'bo', 'odi', 'os', 'io', 'is', 'ispl', 'rm', 'idi', 'oo', 'oq', 'dmfs', 'dmfsCum', 'dcum', 'fill', 'newFG', 'iopl']
@@ -13,6 +13,12 @@ def run(rep, drv):
 	rep.rule = ('random single-product networks (<=%d nodes), all policies, lead times, capacities, four disruption types; '
 				'non-trivial = some period has a positive backorder; distinct by canonical spec' % (8 if th else 5))
 	simstream.run_stream(rep, drv, 'sim-trace', 2500 if th else 250, FIELDS, oracle, THEOREM, th, seed_off=2)
+	mplib.run_mp_stream(rep, drv, 'C02', THEOREM + ' + Props/MP (rm_conservation, rm_never_negative)', 400 if th else 50, th, seed_off=12)
+
+def replay_mp(rep, drv, doc):
+	mplib.mp_case(rep, drv, doc['case'], 'C02', THEOREM)
 
 def replay(rep, drv, doc):
+	if doc['stream'] == 'mp-kernels':
+		return replay_mp(rep, drv, doc)
 	simstream.one_case(rep, drv, doc['stream'], doc['case'], FIELDS, oracle, THEOREM)
